@@ -93,7 +93,7 @@ func (m *C15) OnState(gh explore.Ghost, c *chain.Chain, ctx sdk.Context, s *chai
 					bad(via+"/answer-is-another-content-hash", fmt.Sprintf("asked for %s, got iri %s hash %v", name, a.Iri, a.ContentHash))
 				}
 				if gogoNanos(a.Timestamp) != want {
-					bad(via+"/anchor-time-of-another-record", fmt.Sprintf("%s: answered %d, first anchored %d", name, gogoNanos(a.Timestamp), want))
+					bad(via+"/anchor-time-of-another-record", fmt.Sprintf("%s: answered %s, first anchored %s", name, gogoNanos(a.Timestamp), want))
 				}
 			}
 		}
@@ -113,7 +113,7 @@ func (m *C15) OnState(gh explore.Ghost, c *chain.Chain, ctx sdk.Context, s *chai
 		var wantAtt []string
 		for k, t := range g.attest {
 			if strings.HasPrefix(k, iri+"|") {
-				wantAtt = append(wantAtt, fmt.Sprintf("%s@%d", k[len(iri)+1:], t))
+				wantAtt = append(wantAtt, fmt.Sprintf("%s@%s", k[len(iri)+1:], t))
 			}
 		}
 		sort.Strings(wantAtt)
@@ -129,7 +129,7 @@ func (m *C15) OnState(gh explore.Ghost, c *chain.Chain, ctx sdk.Context, s *chai
 				if a.Iri != iri {
 					bad(via+"/answer-is-another-content-hash", fmt.Sprintf("asked for %s, got an attestation of %s", name, a.Iri))
 				}
-				got = append(got, fmt.Sprintf("%s@%d", a.Attestor, gogoNanos(a.Timestamp)))
+				got = append(got, fmt.Sprintf("%s@%s", a.Attestor, gogoNanos(a.Timestamp)))
 			}
 			sort.Strings(got)
 			if strings.Join(got, ",") != strings.Join(wantAtt, ",") {
